@@ -95,7 +95,8 @@ def helper_calls(f, b):
             continue
         same_impl = (h.get("impl") or {}).get("self") is not None and ((h.get("impl") or {}).get("self") == im or
                                                                         (h.get("impl") or {}).get("self", "").split("<")[0] == (im or "").split("<")[0])
-        if same_impl or (h.get("impl") is None and b.get("impl") is None):
+        # a private free function of the same file is a helper of every body of that file (methods and trait defaults included)
+        if same_impl or h.get("impl") is None:
             out.append((bi, t, h))
     return out
 
